@@ -111,9 +111,15 @@ def one_case(grog, hbin, tmp, case, clean):
     try:
         pre = []
         if warm:
-            rc, _ = run_traced(grog, ws, base, log="warm.log")
+            rc, wtext = run_traced(grog, ws, base, log="warm.log")
+            if rc == 1 and "failed to write outputs to cache" in wtext and shutil.disk_usage(base).free > (1 << 30):
+                # no fault is injected into the warm-up, every command exited 0 and the disk has room, yet the store refused a write:
+                # CacheStore.tla's Set on a healthy store always succeeds (two workers storing one digest at once included), so this
+                # is the code leaving the specification, not the environment (anything else that fails here stays an INFRA outcome)
+                problems.append(("healthy-store-write-fails", "un-faulted build on a healthy store: " + wtext[-300:].replace("\n", " ")))
+                return case, rc, problems, None, ""
             if rc != 0:
-                raise core.Infra("warm-up build failed")
+                raise core.Infra("warm-up build failed: rc=%s %s" % (rc, wtext[-600:]))
             open(os.path.join(ws, "pkg", "a.in"), "w").write("alpha edited\n")
             c = cache_dir(base)
             pre = sorted(os.listdir(os.path.join(c, "cas")))
